@@ -2,6 +2,7 @@
 package c13
 
 import (
+	"context"
 	"encoding/json"
 	"fmt"
 	"strings"
@@ -206,7 +207,7 @@ func check(c Case) error {
 			return fmt.Errorf("harness: program not accepted (%s): %s", pp.Why(), src)
 		}
 		p.St.DefineMacros(pp.Prog)
-		var exp ast.Node = p.St.ExpandMacros(pp.Prog)
+		var exp ast.Node = expandLive(p, pp.Prog)
 		gotDump, missing := dump.Dump(exp, dump.Options{})
 		if len(missing) > 0 {
 			return fmt.Errorf("the expanded program has missing nodes %v\nprogram: %s", missing, src)
@@ -228,14 +229,14 @@ func check(c Case) error {
 		// (4) expanding again gives the same tree; definitions unchanged
 		pp2 := front.Parse(src, false)
 		p.St.DefineMacros(pp2.Prog)
-		again, _ := dump.Dump(p.St.ExpandMacros(pp2.Prog), dump.Options{})
+		again, _ := dump.Dump(expandLive(p, pp2.Prog), dump.Options{})
 		if again != gotDump {
 			return fmt.Errorf("expanding the same input a second time gives a different tree\nprogram: %s\nfirst:  %s\nsecond: %s", src, gotDump, again)
 		}
 		for _, e := range seen {
 			ep := front.Parse(e.src, false)
 			p.St.DefineMacros(ep.Prog)
-			d, _ := dump.Dump(p.St.ExpandMacros(ep.Prog), dump.Options{})
+			d, _ := dump.Dump(expandLive(p, ep.Prog), dump.Options{})
 			if d != e.dump {
 				return fmt.Errorf("after later uses, expanding the earlier input %q gives a different tree (call sites are not independent)\nbefore: %s\nafter:  %s", e.src, e.dump, d)
 			}
@@ -488,3 +489,11 @@ func oracle(kind string, raw json.RawMessage) error {
 
 func TestReplay(t *testing.T)   { pbt.RunReplay(t, oracle) }
 func TestARegress(t *testing.T) { pbt.RunRegress(t, "C13", oracle) }
+
+// expandLive expands under a live evaluation context, as every caller in grol does (repl.EvalOne installs one and
+// cancels it when the input is done: a macro body evaluated later under that cancelled context rightly fails).
+func expandLive(p *sess.S, prog ast.Node) ast.Node {
+	cancel := p.St.SetContext(context.Background(), 5*time.Second)
+	defer cancel()
+	return p.St.ExpandMacros(prog)
+}
